@@ -3,7 +3,7 @@ package ion
 // C05: copying a Reader into a Writer preserves data across formats and symbol tables.
 //
 // Source documents (binary, or the equivalent text; param src) declare a local symbol table ["p","q","$7"] and then
-// hold   $a :: { $f : $v }   and a top-level symbol $w, where a, f, v, w are symbol IDs chosen by solver variables
+// hold   $b :: 1   $a :: { $f : $v }   and a top-level symbol $w, where b, a, f, v, w are symbol IDs chosen by solver variables
 // (system symbols, local symbols, the local symbol whose text looks like an ID, and $0). The documented copy loop
 // (field name, annotations, value, recursing into containers) copies the source Reader into a text, pretty or binary
 // Writer (param dst). The copy is decoded (binary: independent decoder refBinDecode; text: re-read) and every symbol
@@ -103,14 +103,16 @@ func H_C05_copy() {
 	src := vparam("src", 0)
 	dst := vparam("dst", 2)
 	a, f, v, w := vC05Sid(), vC05Sid(), vC05Sid(), vC05Sid()
+	b := []uint8{10, 11}[vnondetInt(0, 1)] // an annotated scalar first, so that symbols reach the copy in an order other than the table's
 	var r Reader
 	if src == 0 {
 		lst := vTLV(0xE0, vCat([]byte{0x81, 0x83}, vTLV(0xD0, vCat([]byte{0x87}, vTLV(0xB0, vCat(vStr("p"), vStr("q"), vStr("$7"))...))...))...)
 		st := vTLV(0xD0, 0x80|f, 0x71, v)
 		val := vTLV(0xE0, vCat([]byte{0x81, 0x80 | a}, st)...)
-		r = NewReaderBytes(vCat(vBVM, lst, val, []byte{0x71, w}))
+		first := vTLV(0xE0, 0x81, 0x80|b, 0x21, 0x01)
+		r = NewReaderBytes(vCat(vBVM, lst, first, val, []byte{0x71, w}))
 	} else {
-		doc := "$ion_symbol_table::{symbols:[\"p\",\"q\",\"$7\"]} $" + vSidText(a) + "::{$" + vSidText(f) + ":$" + vSidText(v) + "} $" + vSidText(w)
+		doc := "$ion_symbol_table::{symbols:[\"p\",\"q\",\"$7\"]} $" + vSidText(b) + "::1 $" + vSidText(a) + "::{$" + vSidText(f) + ":$" + vSidText(v) + "} $" + vSidText(w)
 		r = NewReaderString(doc)
 	}
 	out := &vSink{failAt: -1}
@@ -119,26 +121,26 @@ func H_C05_copy() {
 	vassert(wr.Finish() == nil, "Finish succeeds")
 
 	// what the copy denotes
-	var got [4]vSym
+	var got [5]vSym
 	if dst >= 2 {
 		d, ok := refBinDecode(out.buf, nil)
 		vassert(ok && !d.unsure, "binary copy is well-formed under the independent decoder")
 		vassert(!d.undef, "binary copy defines every symbol ID it uses")
 		us := d.user()
-		vassert(len(us) == 3, "the copy holds the same values")
+		vassert(len(us) == 4, "the copy holds the same values")
 		conv := func(s rSym) vSym { return vSym{present: true, hasText: s.known, text: s.text, sid: int64(s.sid)} }
-		vassert(len(us[0].ann) == 1 && us[1].hasField, "annotation and field name survive")
-		got = [4]vSym{conv(us[0].ann[0]), conv(us[1].field), conv(us[1].sym), conv(us[2].sym)}
+		vassert(len(us[0].ann) == 1 && len(us[1].ann) == 1 && us[2].hasField, "annotations and field name survive")
+		got = [5]vSym{conv(us[1].ann[0]), conv(us[2].field), conv(us[2].sym), conv(us[3].sym), conv(us[0].ann[0])}
 	} else {
 		r2 := NewReaderBytes(out.buf)
 		var evs []vEv
 		stepErr := vTraverse(r2, 0, 4, false, &evs)
 		vassert(!stepErr && r2.Err() == nil, "text copy is read back without error")
-		vassert(len(evs) == 3, "the copy holds the same values")
-		vassert(len(evs[0].ann) == 1 && evs[1].field.present, "annotation and field name survive")
-		got = [4]vSym{evs[0].ann[0], evs[1].field, evs[1].sym, evs[2].sym}
+		vassert(len(evs) == 4, "the copy holds the same values")
+		vassert(len(evs[0].ann) == 1 && len(evs[1].ann) == 1 && evs[2].field.present, "annotations and field name survive")
+		got = [5]vSym{evs[1].ann[0], evs[2].field, evs[2].sym, evs[3].sym, evs[0].ann[0]}
 	}
-	want := [4]uint8{a, f, v, w}
+	want := [5]uint8{a, f, v, w, b}
 	for i := range want {
 		if want[i] == 0 {
 			vassert(!got[i].hasText, "a symbol without text stays without text")
